@@ -952,3 +952,403 @@ Proof.
   destruct (ukf_witness2_values _ cholesky_ok_2_satisfiable) as [E1 E2].
   rewrite E1, E2 in E. injection E. intros. lra.
 Qed.
+
+(* ================================================================== the repaired UKF is the Kalman filter *)
+(* sigma points = mean +- COLUMNS of the factor, Pxy from the deviations of the SECOND sigma set
+   (ukf_forward_gen true true); any factor with L L^T = M will do *)
+
+(* ---------- list / sum helpers ---------- *)
+Lemma sumn_S_first N (f : nat -> R) : sumn (S N) f = f 0%nat + sumn N (fun i => f (S i)).
+Proof.
+  induction N as [|N IH]; [cbn; mnum; lra|].
+  change (sumn (S (S N)) f) with (add (sumn (S N) f) (f (S N))). rewrite IH. cbn. mnum. lra.
+Qed.
+Lemma sumn_app n m (f : nat -> R) : sumn (n + m) f = sumn n f + sumn m (fun i => f (n + i)%nat).
+Proof.
+  induction m as [|m IH]; [rewrite Nat.add_0_r; cbn; mnum; lra|].
+  rewrite Nat.add_succ_r. cbn [sumn]. rewrite IH. mnum. lra.
+Qed.
+Lemma sumn_split3 n (f : nat -> R) :
+  sumn (S (n + n)) f = f 0%nat + sumn n (fun i => f (S i)) + sumn n (fun i => f (S (n + i))).
+Proof. rewrite sumn_S_first, sumn_app. lra. Qed.
+Lemma sumn_const n (c : R) : sumn n (fun _ => c) = IZR (Z.of_nat n) * c.
+Proof.
+  induction n as [|n IH]; [cbn; mnum; lra|]. cbn [sumn]. rewrite IH. mnum.
+  rewrite Nat2Z.inj_succ, succ_IZR. lra.
+Qed.
+
+Lemma rows_of_S {X} N (f : nat -> X) : map f (seq 0 (S N)) = f 0%nat :: map (fun i => f (S i)) (seq 0 N).
+Proof. cbn. f_equal. rewrite <- seq_shift, map_map. reflexivity. Qed.
+Lemma rows_of_app {X} n m (f : nat -> X) :
+  map f (seq 0 (n + m)) = map f (seq 0 n) ++ map (fun i => f (n + i)%nat) (seq 0 m).
+Proof.
+  rewrite seq_app, map_app. f_equal. cbn.
+  replace (seq n m) with (map (fun i => (n + i)%nat) (seq 0 m)); [now rewrite map_map|].
+  clear. revert n. induction m as [|m IH]; intros n; [reflexivity|].
+  cbn. rewrite Nat.add_0_r. f_equal. rewrite <- seq_shift, map_map. rewrite <- (IH (S n)).
+  apply map_ext. intros. lia.
+Qed.
+Lemma map_as_rows_of {X Y} (h : X -> Y) (l : list X) (d : X) :
+  map h l = map (fun i => h (nth i l d)) (seq 0 (length l)).
+Proof.
+  induction l as [|a l IH]; [reflexivity|]. cbn [length]. rewrite rows_of_S. cbn [nth map]. f_equal. exact IH.
+Qed.
+
+(* the (repaired) sigma points as a function of the row index *)
+Definition sigma_fun (n : nat) (x : list R) (X : matR) (i : nat) : list R :=
+  match i with
+  | O => x
+  | S i' => if Nat.ltb i' n then vplus x (nth i' X []) else vminus x (nth (i' - n) X [])
+  end.
+Lemma sigma_pts_rows_of n x (X : matR) : length X = n ->
+  [x] ++ map (fun row => vplus x row) X ++ map (fun row => vminus x row) X = rows_of (S (n + n)) (sigma_fun n x X).
+Proof.
+  intros HX. unfold rows_of. rewrite rows_of_S. cbn [app sigma_fun]. f_equal.
+  rewrite rows_of_app. f_equal.
+  - rewrite (map_as_rows_of _ X []), HX. apply map_ext_in. intros i Hi. apply in_seq in Hi.
+    replace (Nat.ltb i n) with true by (symmetry; apply Nat.ltb_lt; lia). reflexivity.
+  - rewrite (map_as_rows_of _ X []), HX. apply map_ext_in. intros i Hi. apply in_seq in Hi.
+    replace (Nat.ltb (n + i) n) with false by (symmetry; apply Nat.ltb_ge; lia).
+    replace (n + i - n)%nat with i by lia. reflexivity.
+Qed.
+
+(* ---------- stacked matrices  (c ; c + s U ; c - s U)  ---------- *)
+Definition stack_spec (n r : nat) (sgn : R) (c : list R) (U : matR) (gf : nat -> list R) : Prop :=
+  (forall i, (i < S (n + n))%nat -> length (gf i) = r) /\
+  (forall j, (j < r)%nat -> vget (gf 0%nat) j = vget c j) /\
+  (forall i j, (i < n)%nat -> (j < r)%nat -> vget (gf (S i)) j = vget c j + sgn * mget U i j) /\
+  (forall i j, (i < n)%nat -> (j < r)%nat -> vget (gf (S (n + i))) j = vget c j - sgn * mget U i j).
+
+Lemma stack_wf n r sgn c U gf : (0 < r)%nat -> stack_spec n r sgn c U gf -> wf (S (n + n)) r (rows_of (S (n + n)) gf).
+Proof. intros Hr (H & _). apply wf_rows_of; [lia | assumption | exact H]. Qed.
+
+Lemma ukf_weights_0 n k : vget (ukf_weights n k) 0 = k / (IZR (Z.of_nat n) + k).
+Proof. reflexivity. Qed.
+Lemma ukf_weights_lo n k i : (i < n)%nat -> vget (ukf_weights n k) (S i) = 1 / (2 * (IZR (Z.of_nat n) + k)).
+Proof.
+  intros Hi. unfold ukf_weights, vget. cbn [app nth]. rewrite app_nth1 by (now rewrite repeat_length).
+  apply (repeat_spec n). apply nth_In. now rewrite repeat_length.
+Qed.
+Lemma ukf_weights_hi n k i : (i < n)%nat -> vget (ukf_weights n k) (S (n + i)) = 1 / (2 * (IZR (Z.of_nat n) + k)).
+Proof.
+  intros Hi. unfold ukf_weights, vget. cbn [app nth]. rewrite app_nth2 by (rewrite repeat_length; lia).
+  rewrite repeat_length. replace (n + i - n)%nat with i by lia.
+  apply (repeat_spec n). apply nth_In. now rewrite repeat_length.
+Qed.
+
+(* weighted mean of a stack = its centre *)
+Lemma stack_mean n r c U gf k : (0 < r)%nat -> length c = r -> IZR (Z.of_nat n) + k <> 0 ->
+  stack_spec n r 1 c U gf ->
+  wsum_rows (ukf_weights n k) (rows_of (S (n + n)) gf) = c.
+Proof.
+  intros Hr Hc Hnk HS. assert (HW := stack_wf n r 1 c U gf Hr HS).
+  destruct HS as (HL & H0 & H1 & H2).
+  unfold wsum_rows. rewrite (wf_cols _ _ _ HW), (wf_rows _ _ _ HW).
+  apply (vec_ext r); [apply length_mkvec | assumption |].
+  intros j Hj. rewrite vget_mkvec by assumption.
+  rewrite sumn_split3.
+  rewrite (sumn_ext n (fun i => mul (vget (ukf_weights n k) (S i)) (mget (rows_of (S (n + n)) gf) (S i) j))
+                      (fun i => 1 / (2 * (IZR (Z.of_nat n) + k)) * vget c j + 1 / (2 * (IZR (Z.of_nat n) + k)) * mget U i j)).
+  2:{ intros i Hi. rewrite ukf_weights_lo by assumption. rewrite mget_rows_of by lia. rewrite H1 by assumption. mnum. lra. }
+  rewrite (sumn_ext n (fun i => mul (vget (ukf_weights n k) (S (n + i))) (mget (rows_of (S (n + n)) gf) (S (n + i)) j))
+                      (fun i => 1 / (2 * (IZR (Z.of_nat n) + k)) * vget c j - 1 / (2 * (IZR (Z.of_nat n) + k)) * mget U i j)).
+  2:{ intros i Hi. rewrite ukf_weights_hi by assumption. rewrite mget_rows_of by lia. rewrite H2 by assumption. mnum. lra. }
+  rewrite sumn_plus, sumn_minus, !sumn_const, !sumn_scal_l.
+  rewrite ukf_weights_0, mget_rows_of by lia. rewrite H0 by assumption. mnum. field. exact Hnk.
+Qed.
+
+(* weighted cross "covariance" of two zero-centred stacks *)
+Lemma stack_gram n r s s1 s2 (U V : matR) dxf dyf k : (0 < n)%nat -> (0 < r)%nat -> (0 < s)%nat ->
+  wf n r U -> wf n s V ->
+  stack_spec n r s1 (vzero r) U dxf -> stack_spec n s s2 (vzero s) V dyf ->
+  mmul (mtr (rowscale (ukf_weights n k) (rows_of (S (n + n)) dxf))) (rows_of (S (n + n)) dyf) =
+  mscale (2 * (1 / (2 * (IZR (Z.of_nat n) + k))) * s1 * s2) (mmul (mtr U) V).
+Proof.
+  intros Hn Hr Hs HU HV HX HY.
+  assert (WX := stack_wf n r s1 _ U dxf Hr HX). assert (WY := stack_wf n s s2 _ V dyf Hs HY).
+  destruct HX as (_ & X0 & X1 & X2). destruct HY as (_ & Y0 & Y1 & Y2).
+  set (N := S (n + n)) in *. set (w := ukf_weights n k).
+  assert (Z0 : forall d j, (j < d)%nat -> vget (vzero d) j = 0) by (intros d j Hj; unfold vzero; now rewrite vget_mkvec).
+  apply (mat_ext r s); [eauto 8 with wf | eauto 8 with wf |].
+  intros a b Ha Hb.
+  rewrite (mget_mmul r N s) by eauto 8 with wf.
+  rewrite (mget_mscale r s) by eauto 8 with wf.
+  rewrite (mget_mmul r n s) by eauto 8 with wf.
+  unfold N. rewrite sumn_split3.
+  rewrite (sumn_ext n (fun i => mul (mget (mtr (rowscale w (rows_of (S (n + n)) dxf))) a (S i)) (mget (rows_of (S (n + n)) dyf) (S i) b))
+                      (fun i => 1 / (2 * (IZR (Z.of_nat n) + k)) * s1 * s2 * (mget (mtr U) a i * mget V i b))).
+  2:{ intros i Hi. rewrite (mget_mtr (S (n + n)) r) by (eauto with wf; lia).
+      rewrite (mget_rowscale (S (n + n)) r) by (assumption || lia).
+      rewrite !mget_rows_of by lia. rewrite X1, Y1 by assumption. rewrite !Z0 by assumption.
+      unfold w. rewrite ukf_weights_lo by assumption. rewrite (mget_mtr n r) by assumption. mnum. ring. }
+  rewrite (sumn_ext n (fun i => mul (mget (mtr (rowscale w (rows_of (S (n + n)) dxf))) a (S (n + i))) (mget (rows_of (S (n + n)) dyf) (S (n + i)) b))
+                      (fun i => 1 / (2 * (IZR (Z.of_nat n) + k)) * s1 * s2 * (mget (mtr U) a i * mget V i b))).
+  2:{ intros i Hi. rewrite (mget_mtr (S (n + n)) r) by (eauto with wf; lia).
+      rewrite (mget_rowscale (S (n + n)) r) by (assumption || lia).
+      rewrite !mget_rows_of by lia. rewrite X2, Y2 by assumption. rewrite !Z0 by assumption.
+      unfold w. rewrite ukf_weights_hi by assumption. rewrite (mget_mtr n r) by assumption. mnum. ring. }
+  rewrite !sumn_scal_l.
+  rewrite (mget_mtr (S (n + n)) r) by (eauto with wf; lia).
+  rewrite (mget_rowscale (S (n + n)) r) by (assumption || lia).
+  rewrite !mget_rows_of by lia. rewrite X0, Y0 by assumption. rewrite !Z0 by assumption.
+  mnum. ring.
+Qed.
+
+(* ---------- scalars ---------- *)
+Lemma mscale_mscale n m a b (A : matR) : wf n m A -> mscale a (mscale b A) = mscale (a * b) A.
+Proof.
+  intros HA. apply (mat_ext n m); [eauto with wf | eauto with wf |].
+  intros i j Hi Hj. rewrite !(mget_mscale n m) by eauto with wf. mnum. ring.
+Qed.
+Lemma mscale_one n m (A : matR) : wf n m A -> mscale 1 A = A.
+Proof.
+  intros HA. apply (mat_ext n m); [eauto with wf | assumption |].
+  intros i j Hi Hj. rewrite (mget_mscale n m) by assumption. mnum. ring.
+Qed.
+Lemma SPD_mscale n a (M : matR) : 0 < a -> SPD n M -> SPD n (mscale a M).
+Proof.
+  intros Ha (HM & SM & PM). split; [eauto with wf|]. split; [now apply (msym_mscale n)|].
+  intros x Hx Hnz. rewrite (qform_mscale n) by assumption. apply Rmult_lt_0_compat; [assumption | now apply PM].
+Qed.
+
+(* ---------- the factor contract and the repaired sigma points ---------- *)
+Definition factor_ok (n : nat) (msqrt : matR -> matR) : Prop :=
+  forall M, SPD n M -> wf n n (msqrt M) /\ mmul (msqrt M) (mtr (msqrt M)) = M.
+
+Lemma cholesky_ok_factor_ok n msqrt : cholesky_ok n msqrt -> factor_ok n msqrt.
+Proof. intros H M HM. destruct (H M HM) as (W & _ & _ & E). now split. Qed.
+
+Lemma gram_fact n r s (L M1 M2 : matR) : wf n n L -> wf r n M1 -> wf s n M2 ->
+  mmul (mtr (mmul (mtr L) (mtr M1))) (mmul (mtr L) (mtr M2)) = mmul (mmul M1 (mmul L (mtr L))) (mtr M2).
+Proof.
+  intros HL H1 H2.
+  rewrite (mtr_mmul n n r) by eauto with wf. rewrite (mtr_mtr r n), (mtr_mtr n n) by assumption.
+  rewrite (mmul_assoc r n n s) by eauto 8 with wf.
+  rewrite <- (mmul_assoc n n n s L) by eauto 8 with wf.
+  rewrite <- (mmul_assoc r n n s) by eauto 8 with wf. reflexivity.
+Qed.
+Lemma gram_fact_id n s (L M2 : matR) : wf n n L -> wf s n M2 ->
+  mmul (mtr (mtr L)) (mmul (mtr L) (mtr M2)) = mmul (mmul L (mtr L)) (mtr M2).
+Proof.
+  intros HL H2. rewrite (mtr_mtr n n) by assumption.
+  rewrite <- (mmul_assoc n n n s) by eauto 8 with wf. reflexivity.
+Qed.
+
+Section Repaired.
+Variable msqrt : matR -> matR.
+Variables n : nat.
+Hypothesis Hn : (0 < n)%nat.
+Hypothesis msqrt_spec : factor_ok n msqrt.
+Variable k : R.
+Hypothesis Hnk : 0 < IZR (Z.of_nat n) + k.
+Let nk := IZR (Z.of_nat n) + k.
+Let N := S (n + n).
+Let w := ukf_weights n k.
+
+Variable x : list R.
+Variable P : matR.
+Hypothesis Hx : length x = n.
+Hypothesis HP : SPD n P.
+Let L := msqrt (mscale nk P).
+Let X := mtr L.
+Let pts := rows_of N (sigma_fun n x X).
+
+Lemma rep_L : wf n n L /\ mmul L (mtr L) = mscale nk P.
+Proof. apply msqrt_spec. apply SPD_mscale; assumption. Qed.
+Lemma rep_X_wf : wf n n X. Proof. unfold X. destruct rep_L. eauto with wf. Qed.
+
+Lemma sigma_points_repaired : sigma_points_gen msqrt true x P k = Some (pts, w).
+Proof.
+  destruct HP as (WP & _ & _). unfold sigma_points_gen. cbv zeta.
+  rewrite (wf_cols n n P WP), (wf_rows n n P WP), Hx, !Nat.eqb_refl. cbn [andb negb].
+  change (msqrt (mscale (add (ofnat n) k) P)) with L. fold X.
+  assert (WX := rep_X_wf). rewrite (wf_rows n n X WX).
+  unfold pts, N. rewrite <- sigma_pts_rows_of by (now destruct WX as (_ & _ & -> & _)).
+  reflexivity.
+Qed.
+
+(* the points themselves are a stack around x with U = X *)
+Lemma pts_stack : stack_spec n n 1 x X (sigma_fun n x X).
+Proof.
+  assert (WX := rep_X_wf).
+  assert (LR : forall i, (i < n)%nat -> length (nth i X []) = n) by (intros; now apply (wf_row_length n n X)).
+  split; [|split; [|split]].
+  - intros [|i] Hi; [exact Hx|]. cbn [sigma_fun]. destruct (Nat.ltb i n); [now rewrite length_vplus | now rewrite length_vminus].
+  - reflexivity.
+  - intros i j Hi Hj. cbn [sigma_fun]. replace (Nat.ltb i n) with true by (symmetry; apply Nat.ltb_lt; lia).
+    rewrite vget_vplus by lia. rewrite vget_row. mnum. lra.
+  - intros i j Hi Hj. cbn [sigma_fun]. replace (Nat.ltb (n + i) n) with false by (symmetry; apply Nat.ltb_ge; lia).
+    replace (n + i - n)%nat with i by lia. rewrite vget_vminus by lia. rewrite vget_row. mnum. lra.
+Qed.
+
+(* an affine map of the points is a stack around its value at x with U = X M^T *)
+Lemma affine_stack r p (M Bm : matR) (c u : list R) : wf r n M -> wf r p Bm -> length c = r -> length u = p ->
+  stack_spec n r 1 (lin_f M Bm c x u) (mmul X (mtr M)) (fun i => lin_f M Bm c (sigma_fun n x X i) u).
+Proof.
+  intros HM HB Hc Hu. assert (WX := rep_X_wf). destruct pts_stack as (PL & P0 & P1 & P2).
+  assert (LF : forall q, length (lin_f M Bm c q u) = r).
+  { intros q. unfold lin_f. rewrite !length_vplus. now apply (length_mapply r n). }
+  assert (EF : forall q j, (j < r)%nat -> vget (lin_f M Bm c q u) j = vget (mapply M q) j + vget (mapply Bm u) j + vget c j).
+  { intros q j Hj. unfold lin_f. rewrite !vget_vplus; rewrite ?length_vplus, ?(length_mapply r n) by assumption; try lia. reflexivity. }
+  assert (EU : forall i j, (i < n)%nat -> (j < r)%nat -> mget (mmul X (mtr M)) i j = vget (mapply M (nth i X [])) j).
+  { intros i j Hi Hj. rewrite (mget_mmul n n r) by eauto with wf. rewrite (vget_mapply r n) by assumption.
+    apply sumn_ext. intros c0 Hc0. rewrite (mget_mtr r n) by assumption. rewrite vget_row. mnum. lra. }
+  assert (LR : forall i, (i < n)%nat -> length (nth i X []) = n) by (intros; now apply (wf_row_length n n X)).
+  split; [|split; [|split]].
+  - intros i _. apply LF.
+  - reflexivity.
+  - intros i j Hi Hj. rewrite !EF by assumption. rewrite EU by assumption.
+    cbn [sigma_fun]. replace (Nat.ltb i n) with true by (symmetry; apply Nat.ltb_lt; lia).
+    rewrite (mapply_vplus r n) by (try assumption; now apply LR).
+    rewrite vget_vplus by (rewrite (length_mapply r n) by assumption; lia). mnum. lra.
+  - intros i j Hi Hj. rewrite !EF by assumption. rewrite EU by assumption.
+    cbn [sigma_fun]. replace (Nat.ltb (n + i) n) with false by (symmetry; apply Nat.ltb_ge; lia).
+    replace (n + i - n)%nat with i by lia.
+    rewrite (mapply_vminus r n) by (try assumption; now apply LR).
+    rewrite vget_vminus by (rewrite (length_mapply r n) by assumption; lia). mnum. lra.
+Qed.
+
+(* deviations of a stack from its centre *)
+Lemma dev_stack r c U gf : length c = r -> stack_spec n r 1 c U gf ->
+  stack_spec n r (-1) (vzero r) U (fun i => vminus c (gf i)).
+Proof.
+  intros Hc (SL & S0 & S1 & S2).
+  assert (Z0 : forall j, (j < r)%nat -> vget (vzero r) j = 0) by (intros j Hj; unfold vzero; now rewrite vget_mkvec).
+  split; [|split; [|split]].
+  - intros i _. now rewrite length_vminus.
+  - intros j Hj. rewrite vget_vminus by lia. rewrite S0, Z0 by assumption. mnum. lra.
+  - intros i j Hi Hj. rewrite vget_vminus by lia. rewrite S1, Z0 by assumption. mnum. lra.
+  - intros i j Hi Hj. rewrite vget_vminus by lia. rewrite S2, Z0 by assumption. mnum. lra.
+Qed.
+
+Lemma map_rows_of {Y} (g : list R -> Y) f : map g (rows_of N f) = map (fun i => g (f i)) (seq 0 N).
+Proof. unfold rows_of. now rewrite map_map. Qed.
+
+(* moments of an affine image of the sigma points *)
+Lemma repaired_mean r p (M Bm : matR) (c u : list R) : (0 < r)%nat -> wf r n M -> wf r p Bm -> length c = r -> length u = p ->
+  wsum_rows w (map (fun q => lin_f M Bm c q u) pts) = lin_f M Bm c x u.
+Proof.
+  intros Hr HM HB Hc Hu. unfold pts. rewrite map_rows_of.
+  apply (stack_mean n r _ (mmul X (mtr M))); try assumption.
+  - unfold lin_f. rewrite !length_vplus. now apply (length_mapply r n).
+  - unfold nk in Hnk. lra.
+  - now apply (affine_stack r p).
+Qed.
+
+Lemma two_wr : 2 * (1 / (2 * nk)) * -1 * -1 * nk = 1.
+Proof. unfold nk in *. field. lra. Qed.
+
+Lemma repaired_cov r s p (M1 B1 M2 B2 : matR) (c1 c2 u : list R) :
+  (0 < r)%nat -> (0 < s)%nat -> wf r n M1 -> wf r p B1 -> length c1 = r -> wf s n M2 -> wf s p B2 -> length c2 = s -> length u = p ->
+  mmul (mtr (rowscale w (dev_rows (lin_f M1 B1 c1 x u) (map (fun q => lin_f M1 B1 c1 q u) pts))))
+       (dev_rows (lin_f M2 B2 c2 x u) (map (fun q => lin_f M2 B2 c2 q u) pts))
+  = mmul (mmul M1 P) (mtr M2).
+Proof.
+  intros Hr Hs H1 HB1 Hc1 H2 HB2 Hc2 Hu. destruct rep_L as (WL & EL). assert (WX := rep_X_wf).
+  destruct HP as (WP & _ & _).
+  unfold pts, dev_rows. rewrite !map_rows_of. rewrite !map_map.
+  assert (L1 : length (lin_f M1 B1 c1 x u) = r) by (unfold lin_f; rewrite !length_vplus; now apply (length_mapply r n)).
+  assert (L2 : length (lin_f M2 B2 c2 x u) = s) by (unfold lin_f; rewrite !length_vplus; now apply (length_mapply s n)).
+  change (map (fun i => vminus (lin_f M1 B1 c1 x u) (lin_f M1 B1 c1 (sigma_fun n x X i) u)) (seq 0 N))
+    with (rows_of N (fun i => vminus (lin_f M1 B1 c1 x u) (lin_f M1 B1 c1 (sigma_fun n x X i) u))).
+  change (map (fun i => vminus (lin_f M2 B2 c2 x u) (lin_f M2 B2 c2 (sigma_fun n x X i) u)) (seq 0 N))
+    with (rows_of N (fun i => vminus (lin_f M2 B2 c2 x u) (lin_f M2 B2 c2 (sigma_fun n x X i) u))).
+  unfold N, w.
+  rewrite (stack_gram n r s (-1) (-1) (mmul X (mtr M1)) (mmul X (mtr M2))); try assumption; eauto with wf.
+  2:{ apply (dev_stack r _ _ (fun i => lin_f M1 B1 c1 (sigma_fun n x X i) u) L1). now apply (affine_stack r p). }
+  2:{ apply (dev_stack s _ _ (fun i => lin_f M2 B2 c2 (sigma_fun n x X i) u) L2). now apply (affine_stack s p). }
+  unfold X. rewrite (gram_fact n r s) by assumption. rewrite EL.
+  rewrite (mmul_mscale_r r n n) by assumption.
+  rewrite (mmul_mscale_l r n s) by eauto with wf.
+  rewrite (mscale_mscale r s) by eauto 8 with wf.
+  fold nk. rewrite two_wr. apply (mscale_one r s). eauto 8 with wf.
+Qed.
+
+Lemma repaired_cross s p (M2 B2 : matR) (c2 u : list R) :
+  (0 < s)%nat -> wf s n M2 -> wf s p B2 -> length c2 = s -> length u = p ->
+  mmul (mtr (rowscale w (dev_rows x pts)))
+       (dev_rows (lin_f M2 B2 c2 x u) (map (fun q => lin_f M2 B2 c2 q u) pts))
+  = mmul P (mtr M2).
+Proof.
+  intros Hs H2 HB2 Hc2 Hu. destruct rep_L as (WL & EL). assert (WX := rep_X_wf).
+  destruct HP as (WP & _ & _).
+  unfold pts, dev_rows. rewrite !map_rows_of. rewrite !map_map.
+  assert (L2 : length (lin_f M2 B2 c2 x u) = s) by (unfold lin_f; rewrite !length_vplus; now apply (length_mapply s n)).
+  change (map (fun i => vminus x (sigma_fun n x X i)) (seq 0 N))
+    with (rows_of N (fun i => vminus x (sigma_fun n x X i))).
+  change (map (fun i => vminus (lin_f M2 B2 c2 x u) (lin_f M2 B2 c2 (sigma_fun n x X i) u)) (seq 0 N))
+    with (rows_of N (fun i => vminus (lin_f M2 B2 c2 x u) (lin_f M2 B2 c2 (sigma_fun n x X i) u))).
+  unfold N, w.
+  rewrite (stack_gram n n s (-1) (-1) X (mmul X (mtr M2))); try assumption; eauto with wf.
+  2:{ apply (dev_stack n _ _ (sigma_fun n x X) Hx). apply pts_stack. }
+  2:{ apply (dev_stack s _ _ (fun i => lin_f M2 B2 c2 (sigma_fun n x X i) u) L2). now apply (affine_stack s p). }
+  unfold X. rewrite (gram_fact_id n s) by assumption. rewrite EL.
+  rewrite (mmul_mscale_l n n s) by eauto with wf.
+  rewrite (mscale_mscale n s) by eauto 8 with wf.
+  fold nk. rewrite two_wr. apply (mscale_one n s). eauto 8 with wf.
+Qed.
+End Repaired.
+
+(* P - K S K^T = (I - K C) P  for the Kalman gain *)
+Lemma kf_cov_forms (pinv : matR -> matR) n m (Pm C Rm : matR) : pinv_ok m pinv ->
+  wf n n Pm -> msym Pm -> PSD n Pm -> wf m n C -> SPD m Rm ->
+  let S := madd (mmul (mmul C Pm) (mtr C)) Rm in
+  let K := mmul (mmul Pm (mtr C)) (pinv S) in
+  msub Pm (mmul (mmul K S) (mtr K)) = mmul (msub (mid n) (mmul K C)) Pm.
+Proof.
+  intros Hp HPm SPm PPm HC (HR & SR & PR) S K.
+  assert (Hn : (0 < n)%nat) by (eapply wf_pos_r; exact HPm).
+  assert (HS : SPD m S).
+  { unfold S. apply SPD_of_psd_plus_pd; try assumption; [eauto 8 with wf | now apply (msym_congr m n) | now apply (PSD_congr m n)]. }
+  destruct (Hp S HS) as (HSi & HI1 & HI2). destruct HS as (WS & SS & _).
+  assert (SSi : msym (pinv S)) by now apply (minv_sym m S).
+  assert (HK : wf n m K) by (unfold K; eauto 8 with wf).
+  rewrite (mmul_msub_l n n n) by eauto 8 with wf. rewrite (mmul_mid_l n n) by assumption. f_equal.
+  assert (EKt : mtr K = mmul (pinv S) (mmul C Pm)).
+  { unfold K. rewrite (mtr_mmul n m m) by eauto 8 with wf. rewrite SSi.
+    rewrite (mtr_mmul n n m) by eauto with wf. rewrite (mtr_mtr m n) by assumption. now rewrite SPm. }
+  rewrite EKt.
+  rewrite (mmul_assoc n m m n) by eauto 8 with wf.
+  rewrite <- (mmul_assoc m m m n S) by eauto 8 with wf. rewrite HI1.
+  rewrite (mmul_mid_l m n) by eauto with wf.
+  symmetry. apply (mmul_assoc n m n n); eauto with wf.
+Qed.
+
+Theorem ukf_repaired_linear_is_kf (n m p : nat) (pinv msqrt : matR -> matR) (A B C D : matR) (c1 c2 : list R)
+  (Q Rm : matR) (x y u : list R) (P : matR) (k : R) :
+  pinv_ok m pinv -> factor_ok n msqrt ->
+  wf n n A -> wf n p B -> wf m n C -> wf m p D -> length c1 = n -> length c2 = m ->
+  SPD n Q -> SPD m Rm -> SPD n P -> length x = n -> length u = p ->
+  0 < IZR (Z.of_nat n) + k ->
+  ukf_forward_gen pinv msqrt true true (lin_system A B C D c1 c2) Q Rm x y u P k =
+  Some (kf_step pinv A B C D c1 c2 Q Rm x y u P).
+Proof.
+  intros Hp Hs HA HB HC HD Hc1 Hc2 HQ HR HP Hx Hu Hnk.
+  assert (Hn : (0 < n)%nat) by (eapply wf_pos_r; exact HA).
+  assert (Hm : (0 < m)%nat) by (eapply wf_pos_r; exact HC).
+  destruct HQ as (WQ & SQ & PQ). destruct HP as (WP & SP & PP).
+  set (xm := lin_f A B c1 x u).
+  assert (Lxm : length xm = n) by (unfold xm, lin_f; rewrite !length_vplus; now apply (length_mapply n n)).
+  set (Pm := madd (mmul (mmul A P) (mtr A)) Q).
+  assert (PSDP : PSD n P) by now apply PD_PSD.
+  assert (HPm : SPD n Pm).
+  { unfold Pm. apply SPD_of_psd_plus_pd; try assumption; [eauto 8 with wf | now apply (msym_congr n n) | now apply (PSD_congr n n)]. }
+  unfold ukf_forward_gen.
+  rewrite (sigma_points_repaired msqrt n Hs k Hnk x P Hx (conj WP (conj SP PP))).
+  cbv zeta. cbn [lin_system sf sh].
+  rewrite (repaired_mean msqrt n Hn Hs k Hnk x P Hx (conj WP (conj SP PP)) n p A B c1 u Hn HA HB Hc1 Hu).
+  unfold wcov.
+  rewrite (repaired_cov msqrt n Hn Hs k Hnk x P Hx (conj WP (conj SP PP)) n n p A B A B c1 c1 u Hn Hn HA HB Hc1 HA HB Hc1 Hu).
+  rewrite (madd_comm n n Q) by eauto 8 with wf. fold Pm. fold xm.
+  rewrite (sigma_points_repaired msqrt n Hs k Hnk xm Pm Lxm HPm).
+  rewrite (repaired_mean msqrt n Hn Hs k Hnk xm Pm Lxm HPm m p C D c2 u Hm HC HD Hc2 Hu).
+  unfold wcov.
+  rewrite (repaired_cov msqrt n Hn Hs k Hnk xm Pm Lxm HPm m m p C D C D c2 c2 u Hm Hm HC HD Hc2 HC HD Hc2 Hu).
+  rewrite (repaired_cross msqrt n Hn Hs k Hnk xm Pm Lxm HPm m p C D c2 u Hm HC HD Hc2 Hu).
+  destruct HPm as (WPm & SPm & PPm).
+  rewrite (madd_comm m m Rm) by (destruct HR as (WR & _); eauto 8 with wf).
+  unfold kf_step, kf_predict, kf_update. fold xm Pm.
+  rewrite (wf_rows n n Pm WPm).
+  f_equal. f_equal.
+  apply (kf_cov_forms pinv n m Pm C Rm); try assumption. now apply PD_PSD.
+Qed.
